@@ -129,7 +129,7 @@ def all_cases(ctx):
         # time, which dominates the run time); all of them in the thorough tier
         repo = [x for i, x in enumerate(repo) if i % 3 == ctx.seed % 3]
     cases += repo
-    cases += gen_programs(ctx, 150 if ctx.tier == "quick" else 3000, "c09-tie")
+    cases += gen_programs(ctx, 150 if ctx.tier == "quick" else 1000, "c09-tie")
     return cases
 
 
@@ -434,7 +434,7 @@ def flags_case():
 
 
 def always(ctx):
-    n = 250 if ctx.tier == "quick" else 6000
+    n = 250 if ctx.tier == "quick" else 2500
     items = oracle_stream(ctx, n, "c09-oracle")
     verdicts, lines, spans = run_oracle(ctx, items)
     opened = open_classes()
@@ -492,7 +492,7 @@ def search(ctx):
         un = ctx.c09_unexplained
     if not un:
         # something else broke (a theorem, the tie): look further for any failing input
-        items = oracle_stream(ctx, 1500 if ctx.tier == "quick" else 20000, "c09-search")
+        items = oracle_stream(ctx, 1500 if ctx.tier == "quick" else 8000, "c09-search")
         verdicts, _, _ = run_oracle(ctx, items)
         opened = open_classes()
         un = [(it, v, classify(it)) for it, v in zip(items, verdicts)
